@@ -8,7 +8,7 @@ package unpackinfo
 //@ macro materialises(): header.Typeflag != tar.TypeXHeader && header.Typeflag != tar.TypeXGlobalHeader
 //@ func NewUnpackInfo -> (info, err)
 //@   opt propagate-errors
-//@   tolerates os.Lstat#1: isNotExist(_err)
+//@   tolerates os.Lstat: isNotExist(_err)
 //@   sets $rejected = $rejected || err != nil
 //@   sets $kind = ite(err == nil, header.Typeflag, -1)
 //@   sets $ndirs = ite(err == nil && header.Typeflag == tar.TypeDir, $ndirs + 1, $ndirs)
